@@ -81,7 +81,8 @@ def required(tier):
 def _req(n):
   return {'C03.fit-returns': n, 'C03.returns-self': n, 'C03.components': n,
           'C03.rows': n, 'C03.M-psd': n, 'C03.n_features_in_': n,
-          'C03.transform-shape': n, 'C03.scml-lowrank': 5, 'G.C03.fit': n}
+          'C03.transform-shape': n, 'C03.scml-lowrank': 5, 'G.C03.fit': n,
+          'C03.refit.n_features_in_': n // 4}
 
 
 def run_case(spec, j):
@@ -158,6 +159,40 @@ def run_case(spec, j):
           dict(det, n_features_in_=getattr(est, 'n_features_in_', None)))
   j.check('C03.transform-shape', T.shape == (ds['n'], k),
           dict(det, shape=T.shape, k=k))
+  # "...of the points seen by the *last* fit": refit the same object on
+  # data of another dimensionality
+  if spec['ds']['seed'] % 2 == 0:
+    d2 = d + 1 if d < 8 else d - 1
+    ds2spec = dict(spec['ds'], d=d2, seed=spec['ds']['seed'] + 1)
+    p2 = dict(spec.get('params') or {})
+    if p2.get('n_components') is not None:
+      p2['n_components'] = min(p2['n_components'], d2)
+    if p2.get('k') is not None and name == 'LFDA':
+      p2['k'] = max(1, min(p2['k'], d2 + 2))
+    if p2.get('n_basis') is not None:
+      p2['n_basis'] = int(round(p2['n_basis'] / d * d2))
+    spec2 = dict(spec, ds=ds2spec, params=p2)
+    try:
+      ds2 = common.dataset(ds2spec)
+      f2 = common.build(spec2, ds2)
+      est.set_params(**f2.est.get_params(deep=False))
+      api.set_judge(j, well_formed=True)
+      with Quiet():
+        est.fit(*f2.args, **f2.kwargs)
+      api.set_well_formed(False)
+      j.check('C03.refit.n_features_in_',
+              est.n_features_in_ == d2 and est.components_.shape[1] == d2,
+              dict(det, d_first=d, d_second=d2,
+                   n_features_in_=est.n_features_in_,
+                   shape=est.components_.shape))
+    except Exception as e:
+      api.set_well_formed(False)
+      if name in ('SDML', 'SDML_Supervised') and isinstance(e, RuntimeError):
+        j.skip('C03.refit', 'sdml-solver-failure-(C13-clause)')
+      else:
+        j.violated('C03.refit.n_features_in_',
+                   dict(det, d_second=d2, raised=repr(e)[:300]),
+                   mechanism='refit-raised-' + type(e).__name__)
   if np.any(L != 0):
     j.distinct(name, repr(sorted((spec.get('params') or {}).items(),
                                  key=repr)), spec['ds']['seed'])
